@@ -844,6 +844,19 @@ Theorem block_continue_keeps_output fuel st s rest acc vs st1 :
   eval_stmts G (S fuel) st (s :: rest) acc = ROk (VCont (acc ++ vs), st1).
 Proof. intros E. rewrite eval_stmts_S. unfold eval_stmts_step. unfold eval_stmt in E. rewrite E. reflexivity. Qed.
 
+(* a return ends the block at once: the statements after it are not evaluated
+   (the state is the one the returning statement left), whatever they are *)
+Theorem block_return_skips_rest fuel st s rest acc vs st1 :
+  eval_stmt G fuel st s = ROk (VRet vs, st1) ->
+  eval_stmts G (S fuel) st (s :: rest) acc = ROk (VRet (acc ++ [VRet vs]), st1).
+Proof. intros E. rewrite eval_stmts_S. unfold eval_stmts_step. unfold eval_stmt in E. rewrite E. reflexivity. Qed.
+
+(* a statement that yields an ordinary value: the block goes on with the rest *)
+Theorem block_value_continues fuel st s rest acc st1 :
+  eval_stmt G fuel st s = ROk (VNil, st1) ->
+  eval_stmts G (S fuel) st (s :: rest) acc = eval_stmts G fuel st1 rest acc.
+Proof. intros E. rewrite eval_stmts_S. unfold eval_stmts_step. unfold eval_stmt in E. rewrite E. reflexivity. Qed.
+
 Theorem block_done fuel st acc : eval_stmts G (S fuel) st [] acc = ROk (VList acc, st).
 Proof. reflexivity. Qed.
 End Loops.
@@ -874,6 +887,121 @@ Qed.
 
 Theorem block_with_none fuel st ctx : block_with G (S fuel) st None ctx = RErr (EFail None) st.
 Proof. reflexivity. Qed.
+(* ---- contentFor / contentOf ---- *)
+Lemma go_apply_S fuel st id cfg recv bs : go_apply G (S fuel) st id cfg recv bs = go_apply_step (evals_at G fuel) st id cfg recv bs.
+Proof. reflexivity. Qed.
+Lemma block_in_child_S fuel st blk parent data :
+  block_in_child G (S fuel) st blk parent data = block_in_child_step G (evals_at G fuel) st blk parent data.
+Proof. reflexivity. Qed.
+Lemma partial_call_S fuel st name data ctx :
+  partial_call G (S fuel) st name data ctx = partial_call_step G (evals_at G fuel) st name data ctx.
+Proof. reflexivity. Qed.
+
+(* contentFor(name) { block }: emits nothing where it is written; the block is
+   stored, with the scope it was written in, under the name *)
+Theorem content_for_stores fuel st cfg recv name ctx blk :
+  go_apply G (S fuel) st H_CONTENTFOR cfg recv [BV (VStr name); BHelp (HC ctx blk)] =
+  ROk (VNil, set_in st ctx (k_contentFor name) (VClosure ctx blk)).
+Proof. reflexivity. Qed.
+
+(* contentOf(name, data): the stored block, replayed in a fresh child of the scope
+   it was written in, with data added; a block of its own is only the default *)
+Theorem content_of_replays fuel st cfg recv name m ctx blk cctx cblk :
+  Ctx.value value VNil (sctx st) ctx (k_contentFor name) = VClosure cctx cblk ->
+  go_apply G (S (S fuel)) st H_CONTENTOF cfg recv [BV (VStr name); m; BHelp (HC ctx blk)] =
+  block_in_child G (S fuel) st cblk cctx
+    (match map_of_barg (sheap st) m with Some kvs => str_entries kvs | None => [] end).
+Proof. intros E. rewrite go_apply_S. unfold go_apply_step. cbn [N.eqb Pos.eqb orb]. cbv zeta. rewrite E. reflexivity. Qed.
+
+Theorem content_of_default_block fuel st cfg recv name m ctx b :
+  (forall cctx cblk, Ctx.value value VNil (sctx st) ctx (k_contentFor name) <> VClosure cctx cblk) ->
+  go_apply G (S (S fuel)) st H_CONTENTOF cfg recv [BV (VStr name); m; BHelp (HC ctx (Some b))] =
+  block_in_child G (S fuel) st (Some b) ctx
+    (match map_of_barg (sheap st) m with Some kvs => str_entries kvs | None => [] end).
+Proof.
+  intros N. rewrite go_apply_S. unfold go_apply_step. cbn [N.eqb Pos.eqb orb]. cbv zeta.
+  destruct (Ctx.value value VNil (sctx st) ctx (k_contentFor name)) eqn:E; try reflexivity.
+  exfalso. eapply N. reflexivity.
+Qed.
+
+Theorem content_of_undefined_fails fuel st cfg recv name m ctx :
+  (forall cctx cblk, Ctx.value value VNil (sctx st) ctx (k_contentFor name) <> VClosure cctx cblk) ->
+  go_apply G (S fuel) st H_CONTENTOF cfg recv [BV (VStr name); m; BHelp (HC ctx None)] = RErr (EFail None) st.
+Proof.
+  intros N. rewrite go_apply_S. unfold go_apply_step. cbn [N.eqb Pos.eqb orb]. cbv zeta.
+  destruct (Ctx.value value VNil (sctx st) ctx (k_contentFor name)) eqn:E; try reflexivity.
+  exfalso. eapply N. reflexivity.
+Qed.
+
+(* a block replayed with data: a fresh child scope holding the data, the block
+   rendered there by BlockWith, the text handed back as HTML - unescaped, once *)
+Theorem block_in_child_inline fuel st blk parent data st1 n body st3 :
+  cnew_of G st parent = (st1, n) ->
+  block_with G fuel (set_all st1 n data) blk n = ROk (body, st3) ->
+  block_in_child G (S fuel) st blk parent data = ROk (VHTML body, st3).
+Proof.
+  intros E B. rewrite block_in_child_S. unfold block_in_child_step. rewrite E. cbv zeta.
+  unfold block_with in B. rewrite B. reflexivity.
+Qed.
+
+(* ---- partial(name, data): the feeder's text rendered in a fresh child of the
+   caller's scope holding data; the text comes back as HTML, unescaped, once ---- *)
+Theorem partial_inline fuel st name data ctx st1 n cfg text prog out st3 :
+  cnew_of G st ctx = (st1, n) ->
+  Ctx.value value VNil (sctx (set_all st1 n data)) n k_partialFeeder = VGo H_FEEDER cfg ->
+  alookup bytes name (g_partials G) = Some text ->
+  parse text = ParseOk prog ->
+  exec_prog G fuel (with_stmt (with_cur (set_all st1 n data) n) None) prog [] = OOk out st3 ->
+  (forall ct, Ctx.value value VNil (sctx st3) n k_contentType <> VStr ct) ->
+  (forall l, alookup value k_layout data <> Some (VStr l)) ->
+  partial_call G (S fuel) st name data ctx =
+  ROk (VHTML out, with_stmt (with_cur st3 (scur (set_all st1 n data))) (sstmt (set_all st1 n data))).
+Proof.
+  intros E F A P X NC NL. rewrite partial_call_S. unfold partial_call_step. rewrite E. cbv zeta.
+  rewrite F. cbn [N.eqb Pos.eqb negb]. rewrite A, P. unfold exec_prog in X. rewrite X.
+  cbn [sctx with_stmt with_cur].
+  destruct (Ctx.value value VNil (sctx st3) n k_contentType) eqn:EC; try (exfalso; eapply NC; reflexivity);
+    destruct (alookup value k_layout data) as [lv|] eqn:EL; try reflexivity;
+    destruct lv; try reflexivity; exfalso; eapply NL; reflexivity.
+Qed.
+
+(* with a layout: what the partial rendered to is the layout's yield, and the
+   layout is itself a partial rendered in a child of the partial's scope *)
+Theorem partial_layout fuel st name data ctx st1 n cfg text prog out st3 layout :
+  cnew_of G st ctx = (st1, n) ->
+  Ctx.value value VNil (sctx (set_all st1 n data)) n k_partialFeeder = VGo H_FEEDER cfg ->
+  alookup bytes name (g_partials G) = Some text ->
+  parse text = ParseOk prog ->
+  exec_prog G fuel (with_stmt (with_cur (set_all st1 n data) n) None) prog [] = OOk out st3 ->
+  (forall ct, Ctx.value value VNil (sctx st3) n k_contentType <> VStr ct) ->
+  alookup value k_layout data = Some (VStr layout) ->
+  partial_call G (S fuel) st name data ctx =
+  partial_call G fuel (with_stmt (with_cur st3 (scur (set_all st1 n data))) (sstmt (set_all st1 n data)))
+    layout [(k_yield, VHTML out)] n.
+Proof.
+  intros E F A P X NC L. rewrite partial_call_S. unfold partial_call_step. rewrite E. cbv zeta.
+  rewrite F. cbn [N.eqb Pos.eqb negb]. rewrite A, P. unfold exec_prog in X. rewrite X.
+  cbn [sctx with_stmt with_cur]. rewrite L.
+  destruct (Ctx.value value VNil (sctx st3) n k_contentType) eqn:EC; try (exfalso; eapply NC; reflexivity); reflexivity.
+Qed.
+
+(* a partial whose text fails: the error comes out (never partial output), the
+   caller's scope and statement are restored; an unknown identifier inside is an
+   ordinary failure for the caller (it is not tolerated one level up) *)
+Theorem partial_error fuel st name data ctx st1 n cfg text prog l e st3 :
+  cnew_of G st ctx = (st1, n) ->
+  Ctx.value value VNil (sctx (set_all st1 n data)) n k_partialFeeder = VGo H_FEEDER cfg ->
+  alookup bytes name (g_partials G) = Some text ->
+  parse text = ParseOk prog ->
+  exec_prog G fuel (with_stmt (with_cur (set_all st1 n data) n) None) prog [] = OErr l e st3 ->
+  partial_call G (S fuel) st name data ctx =
+  RErr (match e with EFail s => EFail s | EUnknown _ => EFail None end)
+       (with_stmt (with_cur st3 (scur (set_all st1 n data))) (sstmt (set_all st1 n data))).
+Proof.
+  intros E F A P X. rewrite partial_call_S. unfold partial_call_step. rewrite E. cbv zeta.
+  rewrite F. cbn [N.eqb Pos.eqb negb]. rewrite A, P. unfold exec_prog in X. rewrite X. reflexivity.
+Qed.
+
 End Blocks.
 
 (* ================= C09: a fresh scope never clobbers existing ones ================= *)
